@@ -227,3 +227,13 @@ Qed.
 (* ---- views for the per-run comparison with the real classes ---- *)
 Definition hints_view (ds: decls) : list (string * bool) :=
   map (fun p => (f_name (fst p), match f_ann (fst p) with Some _ => true | None => false end)) ds.
+
+(* per field name of `names`: the last Alias of the annotation the hints give it *)
+Definition hints_alias_view (cs: list pyclassdef) (j: nat) (names: list string) : list (string * option string) :=
+  let h := class_hints cs (nth j cs (mkPC [] [])) in
+  map (fun n => (n, match lookup_decl n h with
+                    | Some (f, _) => match f_ann f with Some l => last_alias l | None => None end
+                    | None => None end)) names.
+
+Definition hview_eqb (a b: list (string * option string)) : bool :=
+  list_eqb (fun p q => String.eqb (fst p) (fst q) && ostr_eqb (snd p) (snd q)) a b.
